@@ -70,6 +70,7 @@ def proxyCase (line : Str) (env1 env2 : Env) (locs : List Loc) : String :=
     `route <path> <r;r;…|->`   r ::= `e:<pattern>` | `p:<pattern>`        → `ok <index>` | `ok default`
     `pcase <line> <ip1> <nf1> <ip2> <nf2> <loc;loc;…|->`  loc ::= `s:<prefix>` | `x:<prefix>:<strip>:<upstream>`
          → `ok rejected` | `ok default` | `ok <i> static` | `ok <i> <url> invalid` | `ok <i> <url> <host> <port> <request line>`
+    `pcasen <ip1> <nf1> <ip2> <nf2> <locs> <line;line;…>` → the `pcase` answers joined by ` ; `
     `relay resp <status> <meta> <n | b:hex | s:cps>` | `relay fail <t|c|o> <msg>` | `relay fault <kind> <msg>` → `ok <header-hex> <body-hex>` -/
 def handle : List String → Option String
   | ["proxy", up, pre, strip, path, query] =>
@@ -97,7 +98,13 @@ def handle : List String → Option String
     match (if locs == "-" then some [] else (locs.splitOn ";").mapM parseLoc) with
     | none => some "bad-op"
     | some ls => some (proxyCase (cpsChars line) (mkEnv ip1 nf1) (mkEnv ip2 nf2) ls)
+  | ["pcasen", ip1, nf1, ip2, nf2, locs, lines] =>
+    -- several requests through the same configuration: the outcome of each is a function of that request alone
+    match (if locs == "-" then some [] else (locs.splitOn ";").mapM parseLoc) with
+    | none => some "bad-op"
+    | some ls => some (" ; ".intercalate ((lines.splitOn ";").map (fun l => proxyCase (cpsChars l) (mkEnv ip1 nf1) (mkEnv ip2 nf2) ls)))
   | "pcase" :: _ => some "bad-op"
+  | "pcasen" :: _ => some "bad-op"
   | "proxy" :: _ => some "bad-op"
   | "route" :: _ => some "bad-op"
   | "relay" :: _ => some "bad-op"
